@@ -560,6 +560,17 @@ def gen_constraints_and_clauses(ck, run):
             t.clauses.append(text.replace("{a}", "c0").replace("{b}", "c2"))
             run.case("table-clauses", (ci, layout), t.ddl(layout=layout), [t.expected()], _plan(ck, i, "wide" if ci % 4 == 0 else "std"))
             i += 1
+    # a single word the grammar has no rule for after the column list (Oracle NOLOGGING / COMPRESS, SQLite STRICT ...):
+    # whatever is made of it, the documented keys keep their documented types
+    for wi, word in enumerate(["NOLOGGING", "COMPRESS", "STRICT", "nologging", "CACHE"]):
+        for with_pk in (False, True):
+            for schema in (None, "s1"):
+                t = _base_table(schema=schema)
+                if with_pk:
+                    t.tcons.append((None, "PRIMARY KEY (%s)" % t.cols[0][0]))
+                t.clauses.append(word)
+                run.case("unknown-trailing-word", (word, with_pk, schema), t.ddl(layout=wi % 2), None if with_pk else [t.expected()], _plan(ck, i))
+                i += 1
     for ci, create in enumerate(sorted(set(CREATES))):
         t = _base_table(create=create, schema=[None, "s1"][ci % 2])
         run.case("create-forms", ci, t.ddl(layout=ci % 4), [t.expected()], _plan(ck, ci, "wide"))
